@@ -31,6 +31,7 @@ func init() {
 	pn := profGeneral
 	pn.wParseNil = 25
 	suites["p-nil"] = pSuite(pn, []string{"p.parsenil.data"})
+	suites["p-nil-GSAP"] = pSuite(pn.withKinds("GSAP"), []string{"p.parsenil.data"})
 	pv := profGeneral
 	pv.wProbe, pv.wShrink, pv.wReset, pv.wReadFrom = 40, 15, 8, 15
 	pv.kinds = []string{"HP", "BUP", "DHP", "GSAP"}
